@@ -730,3 +730,77 @@ def counter_loops_as_for(fn):
     new.body = rewrite(new.body)
     set_parents(new)
     return new
+
+
+def predicate_loops(node):
+    """a copy of `node` (function or class) in which `while True: if C: break; <rest>` is written `while not C: <rest>` - the same loop; the normal form for rules about
+    the predicate a loop waits on"""
+    from . import norm as N_
+    new = N_.clone(node)
+
+    def neg(c):
+        if isinstance(c, ast.UnaryOp) and isinstance(c.op, ast.Not):
+            return c.operand
+        return ast.UnaryOp(op=ast.Not(), operand=c)
+    for w in ast.walk(new):
+        if isinstance(w, ast.While) and isinstance(w.test, ast.Constant) and w.test.value is True and not w.orelse and w.body:
+            first = w.body[0]
+            if isinstance(first, ast.If) and not first.orelse and len([s for s in first.body if not (isinstance(s, ast.Expr) and isinstance(s.value, ast.Constant))]) == 1 \
+                    and isinstance(first.body[-1], ast.Break):
+                w.test = ast.copy_location(neg(first.test), first.test)
+                w.body = w.body[1:] or [ast.copy_location(ast.Pass(), first)]
+                ast.fix_missing_locations(w)
+    set_parents(new)
+    return new
+
+
+def self_aliases_inlined(node):
+    """a copy of `node` (function or class) in which a local that is assigned once, at the top level of its function, from a plain `self.<attr>` (also by tuple unpacking) and
+    never assigned again - while the function does not assign that attribute either - is replaced by the attribute it names: `cond = self.plock; with cond:` is `with self.plock:`"""
+    from . import norm as N_
+    new = N_.clone(node)
+    for fn in [f for f in ast.walk(new) if isinstance(f, ast.FunctionDef)]:
+        cand = {}
+        drop = []
+        for st in fn.body:
+            if isinstance(st, ast.Assign) and len(st.targets) == 1:
+                tg, v = st.targets[0], st.value
+                pairs = []
+                if isinstance(tg, ast.Name):
+                    pairs = [(tg, v)]
+                elif isinstance(tg, ast.Tuple) and isinstance(v, ast.Tuple) and len(tg.elts) == len(v.elts) and all(isinstance(t_, ast.Name) for t_ in tg.elts):
+                    pairs = list(zip(tg.elts, v.elts))
+                if pairs and all(isinstance(v_, ast.Attribute) and isinstance(v_.value, ast.Name) and v_.value.id == 'self' for t_, v_ in pairs):
+                    for t_, v_ in pairs:
+                        cand[t_.id] = v_
+                    drop.append(st)
+        if not cand:
+            continue
+        stores = {}
+        attr_stores = set()
+        for x in ast.walk(fn):
+            if isinstance(x, ast.Name) and isinstance(x.ctx, (ast.Store, ast.Del)):
+                stores[x.id] = stores.get(x.id, 0) + 1
+            if isinstance(x, ast.Attribute) and isinstance(x.ctx, (ast.Store, ast.Del)) and isinstance(x.value, ast.Name) and x.value.id == 'self':
+                attr_stores.add(x.attr)
+        good = dict((k, v) for k, v in cand.items() if stores.get(k, 0) == 1 and v.attr not in attr_stores)
+        if not good:
+            continue
+        # nested functions that rebind the name are left alone (none in practice); replace loads
+        class R(ast.NodeTransformer):
+            def visit_Name(self, n):
+                if isinstance(n.ctx, ast.Load) and n.id in good:
+                    return ast.copy_location(ast.Attribute(value=ast.Name(id='self', ctx=ast.Load()), attr=good[n.id].attr, ctx=ast.Load()), n)
+                return n
+        keep = []
+        for st in fn.body:
+            if st in drop:
+                tg = st.targets[0]
+                names = [tg.id] if isinstance(tg, ast.Name) else [t_.id for t_ in tg.elts]
+                if all(n_ in good for n_ in names):
+                    continue
+            keep.append(R().visit(st))
+        fn.body = keep or [ast.Pass()]
+        ast.fix_missing_locations(fn)
+    set_parents(new)
+    return new
